@@ -109,6 +109,9 @@ pub fn c20d_case(text: &str, source: &str) -> Option<Case> {
         coq_list(&w.stmts.iter().map(|s| coq_str(s)).collect::<Vec<_>>()),
         coq_list(&w.arms.iter().map(|(p, t)| format!("({}, {})", coq_str(p), coq_str(t))).collect::<Vec<_>>()),
         coq_list(&sh_texts.iter().map(|s| coq_str(s)).collect::<Vec<_>>()));
+    // property level, judged on the real text alone: the statement text is ONE line (no control character at all)
+    let control_in_text = w.stmts.iter().any(|t| t.chars().any(|c| (c as u32) < 0x20));
+    let verdict = if control_in_text { "72".to_string() } else { verdict };
     let detail = format!("c20d_detail {} ({})", print, file_t);
     let mut tags: Vec<String> = w.kinds.iter().map(|k| k.to_string()).collect();
     tags.push(source.to_string());
